@@ -322,6 +322,33 @@ class Native(object):
         return '<native %s>' % self.name
 
 
+def _memoising(fn):
+    """What functools.lru_cache(...)(fn) is: fn with one table for the whole process, keyed by the arguments."""
+    def call(it, a, k):
+        table = it.__dict__.setdefault('_lru_tables', {})
+        key = ('wrapped', id(fn), repr([getattr(x, 'oid', x) if isinstance(x, Obj) else x for x in a]), repr(sorted(k.items())))
+        if key in table:
+            return table[key]
+        r = it.call(fn, list(a), dict(k))
+        table[key] = r
+        return r
+    return Native('lru_cache-wrapped %r' % (fn,), call)
+
+
+def _nat_lru_cache(it, a, k):
+    if a and isinstance(a[0], (FuncVal, Native)):          # @lru_cache without parentheses
+        return _memoising(a[0])
+    return Native('lru_cache decorator', lambda it2, a2, k2: _memoising(a2[0]))
+
+
+def _nat_wraps(it, a, k):
+    return Native('wraps decorator', lambda it2, a2, k2: a2[0])
+
+
+def _nat_cached_property(it, a, k):
+    raise Uninterpretable('functools.cached_property applied by a call (as a decorator of a method it is handled by name)')
+
+
 class NativeModule(object):
     def __init__(self, name, mod):
         self.name = name
@@ -385,6 +412,7 @@ class Interp(object):
 
     # ---- path exploration ------------------------------------------------
     def reset_path(self, prefix):
+        self.__dict__.pop('_lru_tables', None)      # a scenario starts in a new process
         self.effects = []
         self.objs = []
         self.decisions = []
@@ -442,6 +470,9 @@ class Interp(object):
                     env[local] = SuppModule(SUPP_MODULES[a.name])
                 elif mod == '__future__':
                     pass
+                elif mod == 'functools' and a.name in ('lru_cache', 'cache', 'wraps', 'cached_property'):
+                    env[local] = Native('functools.' + a.name, {'lru_cache': _nat_lru_cache, 'cache': _nat_lru_cache,
+                                                                'wraps': _nat_wraps, 'cached_property': _nat_cached_property}[a.name])
                 elif mod == 'weakref' and a.name in ('WeakKeyDictionary', 'WeakValueDictionary'):
                     # objects of the interpreted program are never collected during a model run: a weak mapping is a mapping
                     env[local] = Native(a.name, lambda it, a_, k_: dict(*a_, **k_))
@@ -524,6 +555,18 @@ class Interp(object):
             nat = self.natives.get((fn.rel, fn.name))
             if nat is not None and fn.bound is None:
                 return nat(self, args, kwargs)
+            decs = getattr(fn.node, 'decorator_list', None)
+            if decs and any(unparse(d).split('(')[0] in ('lru_cache', 'functools.lru_cache', 'cache', 'functools.cache') for d in decs):
+                # functools.lru_cache: one table per decorated function for the whole process, keyed by the arguments (the object a
+                # method is called on among them); results of every kind are remembered; the size bound is not modelled
+                table = self.__dict__.setdefault('_lru_tables', {})
+                key = (id(fn.node), getattr(fn.bound, 'oid', id(fn.bound)) if fn.bound is not None else None,
+                       repr(args), repr(sorted(kwargs.items())))
+                if key in table:
+                    return table[key]
+                r = self.call_func(fn, args, kwargs)
+                table[key] = r
+                return r
             if fn.bound is not None and fn.cls is not None:
                 mn = self.method_natives.get((fn.cls.name, fn.name))
                 if mn is not None:
